@@ -19,9 +19,9 @@ const TOKENS: [&str; 13] = ["cap_chown", "CAP_SYSLOG", "all", "cap_bogus", ",", 
 fn max_tokens(ctx: &Ctx) -> u32 {
     match (ctx.is_dbg(), ctx.tier.pick(0, 1)) {
         (false, 0) => 5,
-        (false, _) => 7,
+        (false, _) => 8,
         (true, 0) => 4,
-        (true, _) => 6,
+        (true, _) => 7,
     }
 }
 
@@ -128,7 +128,7 @@ fn run(ctx: &Ctx, rep: &Report) {
         rep.count(&format!("enumerated.len{len}"), total);
     }
     rep.set_exhaustive(true);
-    let nrand: u64 = if ctx.is_dbg() { ctx.tier.pick(30_000, 300_000) } else { ctx.tier.pick(100_000, 2_000_000) };
+    let nrand: u64 = if ctx.is_dbg() { ctx.tier.pick(30_000, 300_000) } else { ctx.tier.pick(100_000, 20_000_000) };
     let chunk = 2000u64;
     par_for(ctx.threads, nrand / chunk, 1, |c| {
         let mut rng = Rng::for_case(ctx.seed, "C19-random", c);
